@@ -43,6 +43,10 @@ def main():
                 print(f"ERROR    {sid}: {err}")
                 missed += 1
                 continue
+            if "caught_by" not in out:
+                print(f"NOAPPLY  {sid}: {str(out.get('apply'))[:160]}")
+                missed += 1
+                continue
             caught = sorted({k.split("@")[0] for k in out["caught_by"]})
             ok = out["confirmed"] and caught
             if not ok:
